@@ -309,7 +309,7 @@ pub fn property(ctx: &Ctx) -> Property {
             "threshold decisions (miter limit within 1e-3, turning angle within 1e-3 of 0/180 degrees) are taken the smaller way for 'must paint' and the larger way for 'must stay'",
             "curves: pieces are built on an f64 flattening accurate to 0.01 px; the 1 px margin absorbs raqote's 0.1/sqrt(det) flattening",
         ],
-        parts: vec![part("region", 6_000, 300_000, strategy, move |c| check(c, seams_open))],
+        parts: vec![part("region", 8_000, 250_000, strategy, move |c| check(c, seams_open))],
         min_class_fraction: vec![
             ("region", "join-visible", 0.2),
             ("region", "cap-visible", 0.15),
